@@ -229,6 +229,25 @@ func C20(tier string) int {
 				rep.Violation("C20|rejection-names-wrong-symbol|"+q.text, fmt.Sprintf("%q rejected with %v, which does not name a non-public symbol of the query (%s)", q.text, verr, label), map[string]interface{}{"query": q.text, "assignment": label})
 			}
 		}
+		// symbols made public AFTER the query was parsed: the same parsed query is rejected until the last of its symbols
+		// has been made public, accepted from then on
+		if len(toggles) > 0 && len(dotted) == 0 && !set["roles"] {
+			store := newPubWorld(map[string]bool{}, nil)
+			if query, err, pan := safeParse(store, q.text); pan == nil && err == nil {
+				for i := 0; i <= len(toggles); i++ {
+					rep.Count("evaluations", 1)
+					rep.Count("made_public_after_parse", 1)
+					verr := boltz.ValidateSymbolsArePublic(query, store)
+					if (verr == nil) != (i == len(toggles)) {
+						rep.Violation("C20|public-after-parse|"+q.text, fmt.Sprintf("%q parsed while nothing was public; after MakeSymbolPublic of %v (of %v) validation says %v", q.text, toggles[:i], toggles, verr), map[string]interface{}{"query": q.text})
+						break
+					}
+					if i < len(toggles) {
+						store.MakeSymbolPublic(toggles[i])
+					}
+				}
+			}
+		}
 		if qi%97 == 0 {
 			rep.Sample(map[string]interface{}{"query": q.text, "symbols": q.syms, "assignments": 1 << len(toggles)})
 		}
